@@ -56,15 +56,15 @@ CSpec == CInit /\ [][CNext]_cvars
 
 Conforms ==
   IF ~G[i].expanded
-  THEN Bad([prop |-> "C18", kind |-> "unbounded", comp |-> Comp, access |-> G[i].access])
-  ELSE ReportAll({ a \in 1..NA : G[i].out[a] # Expected(a) },
+  THEN BadB([prop |-> "C18", kind |-> "unbounded", comp |-> Comp, access |-> G[i].access])
+  ELSE ReportAllB({ a \in 1..NA : G[i].out[a] # Expected(a) },
          LAMBDA a : [prop |-> "C18", kind |-> "kb-io", comp |-> Comp, access |-> G[i].access, input |-> Alpha[a],
                      ctx |-> <<fs, ss, es>>,
                      observed |-> G[i].out[a], expected |-> Expected(a),
                      note |-> "composite result differs from the three real stages wired in sequence"])
 ObsMatches ==
   (G[i].obs[1] = ImEMods(es) /\ G[i].obs[2] = ImEMode(es))
-  \/ Bad([prop |-> "C18", kind |-> "kb-getter", comp |-> Comp, access |-> G[i].access,
+  \/ BadB([prop |-> "C18", kind |-> "kb-getter", comp |-> Comp, access |-> G[i].access,
           ctx |-> <<fs, ss, es>>, observed |-> G[i].obs, expected |-> <<ImEMods(es), ImEMode(es)>>])
 
 AllProps == LET r == << Conforms, ObsMatches >> IN \A j \in 1..Len(r) : r[j]
